@@ -1286,6 +1286,7 @@ fn c20(ctx: &RunCtx) -> i32 {
     enum Case {
         RrSeq(usize, usize),
         RrConc(usize, usize, usize),
+        RetryRr(usize, usize, Vec<u32>, usize),
         Ch(usize, usize, usize),
         Retry(Vec<bool>, Vec<Result<u64, String>>, u8),
     }
@@ -1298,6 +1299,12 @@ fn c20(ctx: &RunCtx) -> i32 {
     if ctx.thorough() {
         for nb in [1usize, 2, 3, 7, 16] {
             cases.push(Case::RrSeq(nb, 100_000));
+        }
+    }
+    for nb in 1..=9usize {
+        for (k, att) in [vec![1u32], vec![2], vec![1, 2], vec![3, 1, 2], vec![1, 1, 4]].into_iter().enumerate() {
+            cases.push(Case::RetryRr(nb, 3 * nb + 2, att.clone(), 0));
+            cases.push(Case::RetryRr(nb, 50 + k, att, 3));
         }
     }
     let conc_rounds = ctx.n(6, 60) as usize;
@@ -1352,6 +1359,7 @@ fn c20(ctx: &RunCtx) -> i32 {
     let agg = run_parallel(ctx.prop, cases.len() as u64, &ctx.known, |i| {
         match &cases_ref[i as usize] {
             Case::RrSeq(nb, calls) => misc::c20_round_robin_seq(*nb, *calls, json!({"family": "S-stubs", "case": "round-robin sequential", "backends": nb, "calls": calls})),
+            Case::RetryRr(nb, calls, att, unp) => misc::c20_retry_over_round_robin(*nb, *calls, att, *unp, json!({"family": "S-stubs", "case": "retry over round-robin", "backends": nb, "calls": calls, "attempts_per_call": att, "unpolled_future_every": unp})),
             Case::RrConc(nb, t, m) => misc::c20_round_robin_conc(*nb, *t, *m, json!({"family": "S-stubs", "case": "round-robin concurrent", "backends": nb, "threads": t, "calls_per_thread": m})),
             Case::Ch(nb, hk, set) => {
                 let (kind, name) = match hk {
